@@ -256,6 +256,18 @@ def run(ctx):
     sources.append(('dynparams:two-modules', shapes, os.path.join(dyn, 'shapes.py'),
                     [['infer', 6, 11], ['infer', 10, 11], ['infer', 14, 4], ['infer', 16, 4], ['infer', 18, 3], ['goto', 6, 11],
                      ['complete', 14, 8]], None))
+    # a buffer inside a package of the project: import inference puts the package directories on the search path
+    # (add_init_paths), import-name completion must not see them -- whatever was asked before
+    pk = ctx.sub('pkgproj')
+    os.makedirs(os.path.join(pk, 'pkg'), exist_ok=True)
+    for fn, txt in (('pkg/__init__.py', ''), ('pkg/sibling_zq.py', 'class Marker:\n    pass\n'), ('pkg/other_zq.py', 'x = 1\n')):
+        with open(os.path.join(pk, fn), 'w') as f:
+            f.write(txt)
+    pksrc = 'import sibling_zq\nimport sibling_z\nsibling_zq.Marker\nfrom pkg import other_zq\nother_zq.x\n'
+    with open(os.path.join(pk, 'pkg', 'mod.py'), 'w') as f:
+        f.write(pksrc)
+    sources.append(('pkgproj:import-completion', pksrc, os.path.join(pk, 'pkg', 'mod.py'),
+                    [['infer', 1, 10], ['complete', 2, 16], ['infer', 3, 14], ['goto', 5, 10], ['complete', 4, 9]], None, pk))
     # queries that run with a temporary switch (find_references turns flow analysis off) followed by queries that
     # depend on the switch being on: the switch is restored, but is what was inferred meanwhile forgotten?
     flowrefs = ("class A:\n    attr = 1\nclass B:\n    attr = 2\ndef f():\n    if 1:\n        x = A()\n    else:\n        x = B()\n"
@@ -278,8 +290,9 @@ def run(ctx):
     if os.environ.get('C16_ONLY_BUDGET'):
         sources = sources[-1:]
     fresh_jobs, same_jobs, hist_index = [], [], []
-    for si, (name, src, path, qs, _) in enumerate(sources):
-        fresh_jobs.append({'src': src, 'path': path, 'mode': 'fresh', 'queries': qs})
+    sources = [tuple(x) + (None,) if len(x) == 5 else tuple(x) for x in sources]
+    for si, (name, src, path, qs, _, sproj) in enumerate(sources):
+        fresh_jobs.append({'src': src, 'path': path, 'mode': 'fresh', 'queries': qs, 'project': sproj})
         for h in range(3 if quick else 8):
             ln = rng.randrange(2, 5 if quick else 9)
             hist = [rng.randrange(len(qs)) for _ in range(ln)]
@@ -291,15 +304,15 @@ def run(ctx):
                 hist = [[0, 1], [0, 3], [0, 2, 4, 1]][h % 3]
             if h == 0:
                 hist = hist + hist[:1]      # guarantees a repetition
-            same_jobs.append({'src': src, 'path': path, 'mode': 'same', 'queries': [qs[i] for i in hist]})
+            same_jobs.append({'src': src, 'path': path, 'mode': 'same', 'queries': [qs[i] for i in hist], 'project': sproj})
             hist_index.append((si, hist))
-        if name.startswith(('graph', 'dynparams')):
+        if name.startswith(('graph', 'dynparams', 'pkgproj')):
             # the order dependence TLC finds for the design as coded: every ordered pair of statement queries
-            inf = [i for i, q in enumerate(qs) if q[0] == 'infer' and q[1] < 9999]
+            inf = [i for i, q in enumerate(qs) if (q[0] == 'infer' or name.startswith('pkgproj')) and q[1] < 9999]
             for a in inf:
                 for b in inf:
                     if a != b:
-                        same_jobs.append({'src': src, 'path': path, 'mode': 'same', 'queries': [qs[a], qs[b]]})
+                        same_jobs.append({'src': src, 'path': path, 'mode': 'same', 'queries': [qs[a], qs[b]], 'project': sproj})
                         hist_index.append((si, [a, b]))
     ctx.log('%d sources, %d histories' % (len(sources), len(same_jobs)))
     if os.environ.get('C16_DUMP'):            # debugging aid: the exact job lists of this run
@@ -337,7 +350,7 @@ def run(ctx):
     # ---- 3. observations as events, judged by TLC
     traces, owners = [], []
     nobs = 0
-    for si, (name, src, path, qs, model) in enumerate(sources):
+    for si, (name, src, path, qs, model, _sp) in enumerate(sources):
         ev = []
         for qi, (dg, oc, _sd, *_el) in enumerate(fresh[si]):
             ev.append(full({'ev': 'Obs', 'key': qi + 1, 'val': dg}))
@@ -385,7 +398,7 @@ def run(ctx):
             for si, r in zip(rejected, o):
                 extra.setdefault(si, []).append(r)
     for si in rejected:
-        name, src, path, qs, _ = sources[si]
+        name, src, path, qs, _, _sp = sources[si]
         fresh_runs = [fresh[si]] + cross.get(si, []) + extra.get(si, [])
         hist_obs = {}
         for (sj, hist), obs in zip(hist_index, same):
@@ -417,7 +430,7 @@ def run(ctx):
                 ctx.violation('repeatability:%s:%s' % (name.split(':')[0] if not name.startswith('graph') else 'graph', rel),
                               'on one Script, after other queries, a query answers differently from a fresh Script'
                               + (' (it returns a proper subset of the results)' if rel == 'partial-result' else ''), desc)
-    for (name, src, path, qs, _) in sources[:3]:
+    for (name, src, path, qs, _, _sp) in sources[:3]:
         ctx.sample({'source': name, 'queries': qs[:5], 'text': src[:300]})
     # model answers vs code answers of the reference queries (drift)
     drift_jobs = []
